@@ -121,6 +121,37 @@ def creator_corrects(hw, mode):
     return any(c.startswith("rot_") for c in out["cmds"])
 
 
+def host_post_process():
+    """`post_process` flag of the EprMeasureResult objects the real measure-directly / RSP API forms hand
+    to the host program: (api form, role, expect_phi_plus, flag)."""
+    from harness import bell as H
+    from netqasm.qlink_compat import EPRType
+    from netqasm.sdk.epr_socket import EPRSocket
+    rows = []
+
+    def run(name, role, expect, call):
+        H.P.reset_globals()
+        sock = EPRSocket("bob")
+        conn = H.P.PipelineConnection("alice", executor=H.P.TraceExecutor(name="alice"), epr_sockets=[sock])
+        try:
+            res = call(sock)
+            flags = {bool(r.post_process) for r in res}
+            if len(flags) != 1:
+                raise ValueError(f"{name}: mixed post_process flags {flags}")
+            rows.append((name, role, expect, flags.pop()))
+        finally:
+            H._abandon(conn)
+
+    run("create_measure", "create", True, lambda s: s.create_measure(number=2))
+    run("create_rsp", "create", True, lambda s: s.create_rsp(number=2))
+    run("create(tp=M)", "create", True, lambda s: s.create(number=2, tp=EPRType.M))
+    run("create(tp=R)", "create", True, lambda s: s.create(number=2, tp=EPRType.R))
+    run("recv_measure", "recv", True, lambda s: s.recv_measure(number=2, expect_phi_plus=True))
+    run("recv_measure", "recv", False, lambda s: s.recv_measure(number=2, expect_phi_plus=False))
+    run("recv(tp=M)", "recv", True, lambda s: s.recv(number=2, tp=EPRType.M))
+    return rows
+
+
 def generate():
     be, bld, qc = _imports()
     BS = qc.BellState
@@ -147,6 +178,10 @@ def generate():
     cw = creator_corrects("generic", "plain")
     cp = creator_corrects("generic", "seq") or creator_corrects("generic", "post") or creator_corrects("nv", "seq")
     cm = creator_corrects("nv", "plain")
+    hp = host_post_process()
+    lines.append("/-- (API form, role, expect_phi_plus, `post_process` of the returned EprMeasureResult objects) -/")
+    lines.append("def hostPostProcess : List (String × String × Bool × Bool) := [" + ", ".join(
+        f'("{a}", "{r}", {lb(e)}, {lb(f)})' for a, r, e, f in hp) + "]")
     lines.append("/-- does `create_keep` emit Bell corrections on the wait-all / post-routine / move path -/")
     lines.append(f"def creatorData : CreatorData := ⟨{lb(cw)}, {lb(cp)}, {lb(cm)}⟩")
     # ---- bases
@@ -226,4 +261,4 @@ def generate():
     common.write_if_changed(OUT, "\n".join(lines) + "\n")
     return ["Gen.Corrections: singlePair", "Gen.Corrections: postTable (48 rows)",
             "Gen.Corrections: postOffTable (48 rows)", "Gen.Corrections: targets per path",
-            "Gen.Corrections: bases", "Gen.Corrections: creatorData"]
+            "Gen.Corrections: bases", "Gen.Corrections: creatorData", "Gen.Corrections: hostPostProcess"]
